@@ -8,3 +8,5 @@ import WrglModel.Props.C19
 #print axioms Wrgl.C19_addRows_total
 #print axioms Wrgl.C19_reuse_history_independent
 #print axioms Wrgl.C19_reuse_kept_spec
+#print axioms Wrgl.C19_failed_spill_keeps_rows
+#print axioms Wrgl.C19_no_fault_is_addRows
